@@ -18,7 +18,7 @@ ASSUMPTIONS = [
     "a Protocol member written as a plain `def` annotated AsyncIterator[...] counts as async-iterator nature (the correct typing spelling)",
     "annotations are compared as the strings found in __annotations__ (the three artefacts are rendered from the same text)",
 ]
-BOUND = {"quick": "9x9 shape pairs x 15 tag patterns = 1215 documents", "thorough": "same + 3-operation documents over the 4 overload/stream shapes (576 more)"}
+BOUND = {"quick": "9x9 shape pairs x 17 tag patterns = 1377 documents", "thorough": "same + 3-operation documents over the 4 overload/stream shapes (576 more)"}
 CHUNK = 4
 
 P = ops.param
@@ -43,7 +43,7 @@ TAG_PATTERNS = {
     "case": (["x"], ["X"]), "punct": (["x-y"], ["x_y"]), "space": (["x y"], ["x-y"]), "multi-both": (["x", "y"], ["y", "x"]),
     # one consistent spelling per tag, in the styles real documents use (PascalCase, camelCase, reserved word, letter+digit, spaced)
     "pascal": (["DataSources"], ["DataSources"]), "camel": (["apiKeys"], ["apiKeys"]), "reserved": (["models"], ["models"]),
-    "letter-digit": (["v1"], ["v1"]), "spaced-title": (["User Admin"], ["User Admin"]), "pascal+camel": (["DataSources"], ["apiKeys"]),
+    "letter-digit": (["v1"], ["v1"]), "dot": (["x.y"], ["x-y"]), "slash": (["x/y"], ["x_y"]), "spaced-title": (["User Admin"], ["User Admin"]), "pascal+camel": (["DataSources"], ["apiKeys"]),
 }
 
 
